@@ -123,6 +123,13 @@ class RegionAnnotation(SimplificationAvoidanceAnnotation):
     def __hash__(self):
         return hash((self.region_id, self.region_base_addr))
 
+    def __eq__(self, other):
+        return (
+            isinstance(other, RegionAnnotation)
+            and self.region_id == other.region_id
+            and self.region_base_addr == other.region_base_addr
+        )
+
     def __repr__(self):
         return f"<RegionAnnotation {self.region_id}@{self.region_base_addr:#08x}>"
 
